@@ -131,7 +131,9 @@ pub mod collections {
         #[verifier::external_body]
         pub fn len(&self) -> (r: usize) { unimplemented!() }
         #[verifier::external_body]
-        pub fn is_empty(&self) -> (r: bool) { unimplemented!() }
+        pub fn is_empty(&self) -> (r: bool)
+            ensures r ==> forall|k: K| !self@.contains_key(k)
+        { unimplemented!() }
         #[verifier::external_body]
         pub fn entry(&mut self, k: K) -> (r: Entry<'_, K, V>) { unimplemented!() }
         #[verifier::external_body]
